@@ -203,7 +203,7 @@ func confGuard(f func() (string, string)) (string, string) {
 	select {
 	case r := <-done:
 		return r.a, r.b
-	case <-time.After(1500 * time.Millisecond):
+	case <-time.After(1000 * time.Millisecond):
 		return "hang", ""
 	}
 }
@@ -520,8 +520,8 @@ func confYAML(c *configs.SchedulerConfig) []byte {
 }
 
 func genConfCase(r *Rng, tier string) ConfCase {
-	g := &confGen{r: r, viol: r.Intn(3), noise: r.Intn(3)}
-	if r.Chance(25) {
+	g := &confGen{r: r, viol: []int{0, 3, 6, 10, 20}[r.Intn(5)], noise: []int{0, 3, 6, 10, 20}[r.Intn(5)], hier: []int{0, 0, 10, 30, 60}[r.Intn(5)]}
+	if r.Chance(10) {
 		g.viol, g.noise = 0, 0 // a clean configuration
 	}
 	cfg := g.config()
@@ -553,8 +553,8 @@ func genConfCase(r *Rng, tier string) ConfCase {
 	switch {
 	case r.Chance(50):
 		c.Base = confDefaultBase
-	case r.Chance(85):
-		g2 := &confGen{r: r, viol: 0, noise: 0}
+	case r.Chance(94):
+		g2 := &confGen{r: r, viol: 0, noise: 0, single: true}
 		c.Base = string(confYAML(g2.config()))
 	default:
 		c.Base = "partitions:\n  - name: default\n    queues:\n      - name: root\n  - name: gpu\n    queues:\n      - name: root\n"
